@@ -1411,7 +1411,7 @@ class SyncObj(object):
 
             if self.__conf.dynamicMembershipChange:
                 self.__updateClusterConfiguration([node for node in data[3] if node != self.__selfNode])
-            self.__onSetCodeVersion(0)
+            self.__onSetCodeVersion(self.__enabledCodeVersion)
         except:
             logger.exception('failed to load full dump')
 
